@@ -1243,7 +1243,8 @@ theorem mono_all : ∀ f, MonoAt f := by
             simp only [h0] at h
             split at h
             · rename_i heq; cases heq; simpa using h
-            · rename_i e0 r0 heq
+            · rename_i heq; cases heq; simpa using h
+            · rename_i e0 r0 _ heq
               cases heq
               cases h1 : parseArgs f r0 with
               | none => simp [h1] at h
@@ -1676,14 +1677,23 @@ theorem ext_all : ∀ f, ExtAt f := by
             · rename_i heq; cases heq
               simp only [Option.some.injEq, Prod.mk.injEq] at h
               simp [h.1, h.2]
-            · rename_i e0' r1 heq
+            · rename_i heq; cases heq
+              simp only [Option.some.injEq, Prod.mk.injEq] at h
+              simp [h.1, h.2]
+            · rename_i e0' r1 hnr heq
               cases heq
               cases h1 : parseArgs f r1 with
               | none => simp [h1] at h
               | some q =>
                 obtain ⟨es, r2⟩ := q
                 simp only [h1, Option.some.injEq, Prod.mk.injEq] at h
-                simp [ha r1 es r2 h1, h.1, h.2]
+                have := ha r1 es r2 h1
+                cases r1 with
+                | nil => rw [parseArgs_nil] at h1; cases h1
+                | cons t1 r1' =>
+                  cases t1 <;> first
+                    | exact absurd rfl (hnr r1')
+                    | (simp only [List.cons_append] at this ⊢; simp [this, h.1, h.2])
             · cases h
         · -- lb
           simp only [parseBase, List.cons_append] at h ⊢
